@@ -1,6 +1,49 @@
 import KitModel.Go.Prelude
+import KitModel.CronParser
+/-!
+Driver for the parser half of C04: `kitdrv C04 parser`.
+
+Request:  `parse o=<options as Nat> z=<0|1> d=<none|ns> r=<runes>`
+  * `r` — the spec as dot-separated decimal code points (`-` = empty string);
+  * `z` — what `time.LoadLocation` answers for the (single) location name of this case;
+  * `d` — what `time.ParseDuration` answers for the (single) `@every` argument of this case.
+Answer:   `ok spec <second> <minute> <hour> <dom> <month> <dow> loc=<runes|local>`
+        | `ok every <delay ns>` | `err <kind>` | `panic <why>`
+A parser with both optionals is answered as `NewParser` behaves: `panic`.
+-/
 namespace Driver.C04Parser
+open Kit Kit.Cron
+
+def parseRunes (s : String) : Option (List Char) :=
+  if s == "-" || s == "" then some []
+  else (s.splitOn ".").mapM fun w => w.toNat?.map Char.ofNat
+
+def showRunes (cs : List Char) : String :=
+  if cs.isEmpty then "-" else ".".intercalate (cs.map fun c => toString c.toNat)
+
+def showSched : Sched → String
+  | .spec s loc =>
+    let l := match loc with
+      | none => "local"
+      | some n => showRunes n.toList
+    s!"ok spec {s.second.toNat} {s.minute.toNat} {s.hour.toNat} {s.dom.toNat} {s.month.toNat} {s.dow.toNat} loc={l}"
+  | .every d => s!"ok every {d}"
+
+def answer (line : String) : String :=
+  let l := parseLine line
+  match l.op with
+  | "parse" =>
+    match l.nat? "o", l.nat? "z", l.get? "d", (l.get? "r").bind parseRunes with
+    | some o, some z, some d, some r =>
+      let env : Env := { knownZone := fun _ => z != 0, parseDuration := fun _ => d.toInt? }
+      match newParserParse env (Opts.ofNat o) r with
+      | .ok s => showSched s
+      | .err e => s!"err {e}"
+      | .panic w => s!"panic {w}"
+    | _, _, _, _ => "bad-request"
+  | _ => "bad-request"
+
 def main (_args : List String) : IO UInt32 := do
-  IO.eprintln "kitdrv: C04 Parser driver not written yet"
-  return 2
+  lineLoop (fun (_ : Unit) line => ((), answer line)) ()
+  return 0
 end Driver.C04Parser
